@@ -32,6 +32,7 @@ Fire(a) ==
   CASE a.op = "set"      -> DgSet(a.g, a.k, a.o)
     [] a.op = "del"      -> DgDel(a.g, a.k)
     [] a.op = "pop"      -> DgPop(a.g, a.k)
+    [] a.op = "popd"     -> DgPopD(a.g, a.k)
     [] a.op = "get"      -> DgGet(a.g, a.k)
     [] a.op = "clear"    -> DgClear(a.g)
     [] a.op = "update"   -> DgUpdate(a.g, ToPairs(a.pairs))
@@ -51,6 +52,7 @@ Fire(a) ==
     [] a.op = "dsupdatebad" -> DsUpdateBad(a.d, a.k, a.o)
     [] a.op = "dsdel"    -> DsDel(a.d, a.k)
     [] a.op = "dspop"    -> DsPop(a.d, a.k)
+    [] a.op = "dspopd"   -> DsPopD(a.d, a.k)
     [] a.op = "dsget"    -> DsGet(a.d, a.k)
     [] a.op = "dsmeta"   -> DsMeta(a.d, a.mk)
     [] a.op = "dsclear"  -> DsClear(a.d)
